@@ -172,3 +172,9 @@ package preference_reversal
 //@ wire ReversedPreferenceCriterion
 //@   property C01 C07 C09 C16 C20
 //@   json Id=id Type=type ValuesRange=valuesRange AlternativesValues=alternativesValues
+
+// ---- registered names (what a request must say to select this object; what error messages list)
+//@ func (*PreferenceReversal).Identifier
+//@   property C07 C09 C16 C20
+//@   nopanic
+//@   ensures [name] result == "preferenceReversal"
